@@ -419,6 +419,17 @@ func redactPipelineStage(stage interface{}, redactFieldNames bool, keyPath []str
 						newMap.Set(redactedKey, v)
 					}
 					continue
+				case UserDocument:
+					// keys below are user field names: they must not be looked up in the search vocabulary
+					switch vTyped := v.(type) {
+					case *orderedmap.OrderedMap[string, any]:
+						newMap.Set(redactedKey, redactQueryValues(vTyped, redactFieldNames, false, nil, newKeyPath))
+					case []any:
+						newMap.Set(redactedKey, redactArrayValuesWithKey(k, vTyped, redactFieldNames, false, false, newKeyPath))
+					default:
+						newMap.Set(redactedKey, redactScalarValue(newKeyPath, v, false, false))
+					}
+					continue
 				case Namespace:
 					if redactNamespaces {
 						switch vTyped := v.(type) {
@@ -506,6 +517,17 @@ func redactPipelineStage(stage interface{}, redactFieldNames bool, keyPath []str
 										newSubMap.Set(subK, redactPipelineStage(subVMap, redactFieldNames, append(newKeyPath, subK), inSearchStage))
 									} else {
 										newSubMap.Set(subK, subV)
+									}
+									continue
+								case UserDocument:
+									subPath := append(newKeyPath, subK)
+									switch subVTyped := subV.(type) {
+									case *orderedmap.OrderedMap[string, any]:
+										newSubMap.Set(subK, redactQueryValues(subVTyped, redactFieldNames, false, nil, subPath))
+									case []any:
+										newSubMap.Set(subK, redactArrayValuesWithKey(subK, subVTyped, redactFieldNames, false, false, subPath))
+									default:
+										newSubMap.Set(subK, redactScalarValue(subPath, subV, false, false))
 									}
 									continue
 								case Namespace:
